@@ -374,6 +374,11 @@ func checkKeyidUnmarshal(c *Ctx, kid *types.Named) {
 		}
 	}
 	if dec == nil || jStruct == nil || jMap == nil {
+		// a decoder set to refuse keys the struct does not name is a different acceptance rule, not another spelling of it
+		if strict := w.callsToDeep(fn, "(*encoding/json.Decoder).DisallowUnknownFields"); len(strict) > 0 {
+			c.Bad("R3.gate", "Unmarshal|keys the struct does not name are ignored", w.Pos(strict[0].Pos()), "the text is decoded by a json.Decoder with DisallowUnknownFields: a KeyID that carries one attribute more than this version names no longer decodes (its certificate loses its type, label and principals)")
+			return
+		}
 		c.Unresolved("R3.gate", "the two json.Unmarshal calls (struct and map) in keyid.Unmarshal")
 		return
 	}
